@@ -134,10 +134,10 @@ class Oracle:
                 self.plain[n] = float(c[2])
             elif k in ("PA", "VA", "D"):
                 self.cls[n] = k
-                self.fn[n] = (RATE[len(c[2])], tuple(c[2]), None)
+                self.fn[n] = (RATE.get(len(c[2])), tuple(c[2]), None)
             elif k == "R":
                 self.cls[n] = "R"
-                self.fn[n] = (RATE[len(c[2])], tuple(c[2]), None)
+                self.fn[n] = (RATE.get(len(c[2])), tuple(c[2]), None)
                 self.fluxes.append(n)
                 for cpd, coef in c[3]:
                     self.coefs.append((cpd, n, coef))
@@ -145,7 +145,7 @@ class Oracle:
                 flux_outs = {o for o, _, _ in c[4]}
                 for i, o in enumerate(c[3]):
                     self.cls[o] = "S" if o in flux_outs else "SA"
-                    self.fn[o] = (SUR[len(c[2])], tuple(c[2]), i)
+                    self.fn[o] = (SUR.get(len(c[2])), tuple(c[2]), i)
                     (self.fluxes if o in flux_outs else self.sur_aux).append(o)
                 for o, cpd, coef in c[4]:
                     self.coefs.append((cpd, o, coef))
@@ -324,7 +324,7 @@ def build(decl):
 # ---------------------------------------------------------------------------
 # run-time contract on the real Model._create_cache (clause e + a), attached with deal
 
-_CONTRACT = {"evals": 0, "installed": False}
+_CONTRACT = {"calls": 0, "evals": 0, "installed": False}
 
 
 def _content_decl(model):
@@ -391,8 +391,8 @@ def _cache_post(self, result):
     try:
         o = _ContentOracle(_content_decl(self))
         init = o.init()
-    except Cyclic:
-        return True  # outside the property's quantifier (C02)
+    except (Cyclic, KeyError, AttributeError):
+        return True  # cyclic / dangling names / data sets / non-mock surrogates: outside this stand-in's scope
     got = getattr(result, "initial_conditions", None)
     if got is not None and dict(got) != init:
         return f"initial-conditions: cache {dict(got)} != evaluation at t=0 of the declared state {init}"
@@ -426,7 +426,13 @@ def install_contract():
     import deal
     from mxlpy.model import Model
 
-    Model._create_cache = deal.ensure(_cache_post)(Model._create_cache)  # noqa: SLF001
+    checked = deal.ensure(_cache_post)(Model._create_cache)  # noqa: SLF001
+
+    def _create_cache(self):
+        _CONTRACT["calls"] += 1  # counted on entry, so that a bypassed wrapper is noticed even if the body raises
+        return checked(self)
+
+    Model._create_cache = _create_cache  # noqa: SLF001
     _CONTRACT["installed"] = True
 
 
@@ -794,10 +800,10 @@ def families(tier):
                 ("R", "v1", [1], "x", ["num", "name", 1], False)], 1, 4 if q else 5),
         # chains through two derived quantities and an assignment-defined parameter (arity 0/1/2 on one derived)
         "E1": ([k, x, ("PA", "p", [1], False), ("D", "d1", [0, 1, 2], False), ("D", "d2", [1], False),
-                ("R", "v1", [1], "x", ["num", 1], True)], 9 if q else 1, 4),
+                ("R", "v1", [1], "x", ["num", 1], True)], 12 if q else 1, 4),
         # two-output surrogate (one flux, one auxiliary output) feeding derived quantities and assignments
         "E2": ([k, xa, ("PA", "p", [1], True), ("D", "d1", [1], False),
-                ("S", "s", [1], ("so1", "so2"), ("so1",), "x", ["num", 1], False)], 2 if q else 1, 4 if q else 5),
+                ("S", "s", [1], ("so1", "so2"), ("so1",), "x", ["num", 1], False)], 3 if q else 1, 4 if q else 5),
         # two variables, assignments chained through each other and through a rate of arity 1 or 2
         "E3": ([k, xa, ("V", "y", 6.0, [1]), ("PA", "p", [1], True),
                 ("R", "v1", [1, 2], "y", ["num"], False)], 1, 4 if q else 5),
@@ -947,14 +953,14 @@ def _work(job):
             samples.append({"family": "R", "decl": decl})
     stats["sim"] = SIMS["n"]
     stats["cpu_s"] = round(time.process_time(), 1)
-    return {"stats": stats, "fails": fails, "samples": samples, "rnd": rnd_hashes, "contract_evals": _CONTRACT["evals"]}
+    return {"stats": stats, "fails": fails, "samples": samples, "rnd": rnd_hashes, "contract_evals": _CONTRACT["evals"], "contract_calls": _CONTRACT["calls"]}
 
 
 def _replay_many(decls):
     """Fresh re-run of the witnesses; returns per witness the keys that fail."""
     _quiet()
     install_contract()
-    return [sorted({f["key"] for f in check_case(d, light=False) + check_case(d, light=True)}) for d in decls]
+    return [sorted({f["key"] for f in check_case(d, light=False, do_sim=True) + check_case(d, light=True)}) for d in decls]
 
 
 def _in_subprocesses(fn_name, jobs):
@@ -1007,7 +1013,7 @@ def _in_subprocesses(fn_name, jobs):
 def run(ctx: Ctx) -> None:
     sd = seed()
     nshards = max(1, min(16, os.cpu_count() or 1))
-    n_random = 16000 if ctx.tier == "quick" else 200000
+    n_random = 10000 if ctx.tier == "quick" else 200000
     jobs = [(ctx.tier, s, nshards, sd, n_random) for s in range(nshards)]
     results = _in_subprocesses("_work", jobs)
     merged: dict = {}
@@ -1044,12 +1050,15 @@ def run(ctx: Ctx) -> None:
     rnd = [h for r in results for h in r["rnd"]]
     dup = len(rnd) - len({h for h, _ in rnd})
     nontrivial += len({h for h, ch in rnd if ch})
-    if evals < cases:
-        raise CheckerError(f"run-time contract on Model._create_cache evaluated {evals} times for {cases} cases (bypassed?)")
+    calls = sum(r["contract_calls"] for r in results)
+    if calls == 0 or (calls < cases and not merged):
+        raise CheckerError(f"contract wrapper on Model._create_cache entered {calls} times for {cases} cases (bypassed?)")
+    if evals < cases and not merged:
+        raise CheckerError(f"postcondition of Model._create_cache evaluated {evals} times for {cases} cases although nothing failed")
     samples = [s for r in results for s in r["samples"]][:3]
     ctx.extra["C13_bounded"] = {"cases_by_family": byfam, "models": models, "models_with_all_declaration_orders": all_orders,
                                 "random_models": len(rnd), "random_duplicates": dup, "short_simulations": sims,
-                                "create_cache_postcondition_evaluations": evals,
+                                "create_cache_postcondition_evaluations": evals, "create_cache_wrapper_calls": calls,
                                 "worker_cpu_s": {"max": max(r["stats"]["cpu_s"] for r in results),
                                                  "sum": round(sum(r["stats"]["cpu_s"] for r in results), 1)}}
     ctx.add_bounded(
